@@ -33,8 +33,17 @@ type C19 struct {
 }
 
 type cliKeys struct {
-	sys  *gtier.System // loaded from the file for the reference verdict
-	path string
+	sys        *gtier.System // loaded from the file for the reference verdict
+	path       string
+	compressed string // the same system in the compressed format ("" if not made)
+}
+
+// file returns the keys file to hand to a command: now and then the compressed-format copy.
+func (k *cliKeys) file(t *tape.Tape) string {
+	if k.compressed != "" && t.Chance(1, 3) {
+		return k.compressed
+	}
+	return k.path
 }
 
 func init() { register(&C19{base: base{id: "C19", level: "exploration"}, w: -1}) }
@@ -131,7 +140,22 @@ func (c *C19) Init(tier string, worker, nworkers int, seed uint64) error {
 			// the pipeline does not compose: `setup` wrote a file that reads back as another system
 			c.initProblem = fmt.Sprintf("`gnark-mbu setup --mode %s --tree-depth %d --batch-size %d` wrote a keys file that loads as depth %d batch %d", d.mode, d.depth, d.batch, ps.TreeDepth, ps.BatchSize)
 		}
-		c.keys = append(c.keys, &cliKeys{sys: &gtier.System{Mode: d.mode, Depth: d.depth, Batch: d.batch, PS: ps}, path: path})
+		k := &cliKeys{sys: &gtier.System{Mode: d.mode, Depth: d.depth, Batch: d.batch, PS: ps}, path: path}
+		// the same system in the compressed format (what older deployments hold): written by the library
+		if worker%2 == 1 {
+			cp := path + ".compressed"
+			f, err := os.Create(cp)
+			if err != nil {
+				return err
+			}
+			if _, err := ps.WriteTo(f); err != nil {
+				f.Close()
+				return fmt.Errorf("writing compressed keys: %w", err)
+			}
+			f.Close()
+			k.compressed = cp
+		}
+		c.keys = append(c.keys, k)
 	}
 	return nil
 }
@@ -244,7 +268,7 @@ func (c *C19) Run(x *engine.Ctx) *engine.Violation {
 			} else {
 				p = params[t.Pick(len(params))] // possibly of the other mode
 			}
-			mode, keysPath, stdin := p.mode, k.path, p.doc
+			mode, keysPath, stdin := p.mode, k.file(t), p.doc
 			fault := "none"
 			expectOK := p.ok && p.mode == k.sys.Mode
 			mustFail := false // causes the property lists as ending in a non-zero exit
@@ -335,10 +359,23 @@ func (c *C19) Run(x *engine.Ctx) *engine.Violation {
 			hashArg := "0x" + pr.hash.Text(16)
 			hashVal := pr.hash
 			proofJSON := pr.json
-			keysPath := vk.path
+			keysPath := vk.file(t)
 			fault := "none"
 			hashParses := true
-			switch t.Weighted(6, 2, 1, 1, 1, 1, 1, 1, 1, 1, 1) {
+			switch t.Weighted(6, 2, 1, 1, 1, 1, 1, 1, 1, 1, 1, 1, 1, 1) {
+			case 11:
+				hashArg, hashParses = hashArg+[]string{"zz", " ", "0x", "g1", ".0"}[t.Pick(5)], false
+				fault = "hash-with-trailing-garbage"
+			case 12:
+				// the same proof, pretty-printed over several lines: still exactly the proof
+				var anyv any
+				json.Unmarshal(proofJSON, &anyv)
+				proofJSON, _ = json.MarshalIndent(anyv, "", "    ")
+				proofJSON = append(proofJSON, '\n')
+				fault = "proof-json-pretty-printed"
+			case 13:
+				proofJSON = append(append([]byte{}, proofJSON...), []byte("\n{\"junk\":1}")...)
+				fault = "proof-json-with-trailing-data"
 			case 1:
 				cs, _ := gtier.DecodeJSON(proofJSON)
 				i := t.Pick(8)
